@@ -184,6 +184,25 @@ func init() {
 				}
 			}
 		}
+		// "heard from": every delta datagram, whatever it carries (nothing, news,
+		// stale news, news about others), is a heartbeat of its sender
+		shapes := deltaShapes()
+		for name, mk := range shapes {
+			fd := &countFD{n: map[string]int{}}
+			st := gossip.VNewClusterState("local", "10.0.0.1:7000", fd, sharedGossipMetrics, nopWatcher{})
+			st.UpsertLocal("k", "v")
+			pl := gossip.VNewPacketListener(discardConn{}, st, fd, 1400, sharedGossipMetrics)
+			for rep := 1; rep <= 3; rep++ {
+				_ = pl.VHandlePacket(mk())
+				states++
+				transitions++
+				if fd.n["nY"] != rep {
+					run.Violation("C12", "delta-not-counted-as-heartbeat", fmt.Sprintf("delta datagram #%d of shape %q from nY produced %d detector reports in total, want %d", rep, name, fd.n["nY"], rep), map[string]any{"engine": "E3-C12", "shape": name})
+					break
+				}
+			}
+		}
+		run.Set("heartbeat_shapes", len(shapes))
 		run.Set("states", states)
 		run.Set("transitions", transitions)
 		run.Set("traces_validated_against_impl", seqs)
